@@ -580,6 +580,9 @@ req0_ctx_reset(req0_ctx *ctx)
 	if (ctx->rep_msg != NULL) {
 		nni_msg_free(ctx->rep_msg);
 		ctx->rep_msg = NULL;
+		if (ctx == &s->master) {
+			nni_pollable_clear(&s->readable);
+		}
 	}
 	ctx->conn_reset = false;
 }
